@@ -1,44 +1,12 @@
 """C02 — Valve A2S replies are decoded field for field."""
-import random
-import vlib, netcases
-from props import netprops
+from props import decode_generic
 
 LEVEL = "proof"
-RULE = ("valid stream: random abstract server states (all 32 EDF flag subsets, both info layouts, The Ship, ROR2, "
-        "0-3 challenge rounds, single / Source split / GoldSrc split at random cut points) encoded by the Lean SPEC; "
-        "the implementation's response must equal the SPEC's expected response (oracle) and the model's (correspondence). "
-        "hostile stream: one structured mutation of a valid script, correspondence only. Non-trivial = at least one "
-        "delivery received; distinct = distinct implementation outputs.")
+RULE = decode_generic.rule_text("C02")
 ASSUMPTIONS = ["bzip2-rs and crc32fast are parameters of the model (oracle table from Python's bz2 at check time)"]
-TRUSTED = ["hand-written Lean model of protocols/valve, checked against the code on every run", "SPEC encoders (GdVerif/Spec/Valve.lean) written from the Valve Server Queries page"]
-
-
-def want_oracle(valids):
-    by_id = {v.id: v for v in valids}
-
-    def oracle(case, impl, model, panic):
-        out = netprops.crash_oracle(case, impl, model, panic)
-        v = by_id.get(case.split(" ", 1)[0])
-        if v is not None and not v.notwf:
-            got = vlib.result_of(impl)
-            if got != v.want:
-                out.append(("decode-mismatch:" + v.fam, f"response differs from the SPEC's expected response; want {v.want[:300]} got {got[:300]}"))
-        return out
-    return oracle
+TRUSTED = ["hand-written Lean model of protocols/valve, checked against the code on every run",
+           "SPEC encoders (GdVerif/Spec/Valve.lean) written from the Valve Server Queries page"]
 
 
 def run(rep, tier, seed, replay=None):
-    if replay is not None:
-        vlib.correspond(rep, replay, oracle=netprops.crash_oracle, trivial=netprops.trivial, tag="c02")
-        return
-    n = 600 if tier == "quick" else 12000
-    valids = netprops.valid_cases("valve", seed, n)
-    cases = netprops.corpus("C02") + [v.line for v in valids]
-    vlib.correspond(rep, cases, oracle=want_oracle(valids), trivial=netprops.trivial, tag="c02")
-    rnd = random.Random(seed)
-    hostile = []
-    for k, v in enumerate(valids[: (300 if tier == "quick" else 6000)]):
-        c, what = netcases.mutate(v.case(), rnd)
-        hostile.append(c.line(f"{v.id}m{k}"))
-        rep.count("mutation:" + what)
-    vlib.correspond(rep, hostile, oracle=None, trivial=netprops.trivial, tag="c02")
+    decode_generic.run("C02", rep, tier, seed, replay)
